@@ -23,6 +23,8 @@ ASSUMPTIONS = [
     "stereo characters (/ \\ @) are outside the generator (the constructor rejects them)",
 ]
 CORE = ["C", "CC", "CCC", "CC(C)C", "C(C)CC", "CC(C)(C)C", "C1CC1", "c1ccccc1", "CC(=O)OC", "CCl", "C[Si](C)C", "CC(C)(C(=O)OC)", "C1CCOC1", "CC=CC"]
+# explicit hydrogen atoms written inside a multi-atom token (valid SMILES; a low-rate hostile input class)
+EXPLICIT_H = ["C([H])C", "[H]C(C)C", "CC([H])([H])C", "C([H])([H])CO", "[H]N(C)C"]
 DEEP = ["C(C(C(C(C)C)C)C)C", "CC(C(C)(C)C)C(C)C", "C(C)(C)C(C)(C)C", "C1CC(C(C)C)C1", "c1cc(C(C)C)ccc1C", "C(C(C(Cl)Br)O)N", "CC(CC(C)(C)C)(C)C"]
 SLOTS = [("<", None), (">", None), ("$", 1)]
 MAX_PER_CASE = 4000
@@ -113,7 +115,7 @@ def rand_desc(rng, generable=False):
 
 
 def random_token(rng):
-    pool = [s for s, _ in gen.FRAGMENTS] + DEEP + gen.SINGLE_ATOM_ENDS
+    pool = [s for s, _ in gen.FRAGMENTS] + DEEP + gen.SINGLE_ATOM_ENDS + (EXPLICIT_H if rng.random() < 0.03 else [])
     for _ in range(100):
         smi = rng.choice(pool)
         k = rng.randint(1, 4) if rng.random() < 0.9 else rng.randint(5, 8)
@@ -142,6 +144,10 @@ def check_token(tok, blanks, cnt, viol, nt, P="c02"):
         viol.append(op.V(f"{P}.rejects-valid-token", f"SmilesToken({text!r}) raised {type(exc).__name__}: {exc}", text=text))
         return text
     vs = op.compare_token(lt, tok, text, P=P)
+    if "[H]" in text and len(tok.atoms) > 1:
+        for v in vs:
+            if v["cls"].endswith(("fragment-atoms", "fragment-bonds")):
+                v["cls"] = f"{P}.explicit-hydrogen-in-multi-atom-token"
     cnt["desc_compared"] += len(tok.descriptors())
     for v in vs:
         v["text"] = text
